@@ -437,7 +437,7 @@ func (F *Facts) ExportedEntries() []*ssa.Function {
 		}
 		out = append(out, fn)
 	}
-	sort.Slice(out, func(i, j int) bool { return out[i].Pos() < out[j].Pos() })
+	sort.Slice(out, func(i, j int) bool { return ir.PosLess(out[i].Pos(), out[j].Pos()) })
 	return out
 }
 
